@@ -137,6 +137,25 @@ def run(F, R, tier):
                 continue
             seen.add(v)
             pat, argv = SB.render_pattern(q)
+            rt_ = sym.term(q.ret)
+            if isinstance(rt_, tuple) and rt_[:1] == ("concat",):
+                # the returned string itself, as a concatenation (possibly nested: members formatted one by one and joined): its literal
+                # pieces are the template, the rest the arguments — however many format! calls produced it
+                pat, argv = "", []
+
+                def flat_(t_):
+                    nonlocal pat
+                    for p_ in t_[1]:
+                        if p_[0] == "lit":
+                            pat += p_[1]
+                        elif isinstance(p_[1], tuple) and p_[1][:1] == ("concat",):
+                            flat_(p_[1])
+                        elif isinstance(p_[1], tuple) and p_[1][:1] == ("lit",) and isinstance(p_[1][1], str):
+                            pat += p_[1][1]
+                        else:
+                            pat += "{}"
+                            argv.append(p_[1])
+                flat_(rt_)
             want = S.THUMBPRINT_MEMBERS[v]
             members = re.findall(r'"([A-Za-z0-9_]+)":"\{\}"', pat)
             r2.site("thumbprint %s: %s" % (v, pat))
